@@ -175,4 +175,48 @@ def combit (plus : Nat) (s : St) (d : Nat) (bit_index : Nat) : St :=
 
 def mpz_combit (s : St) (d : Nat) (bit_index : Nat) : St := combit 1 s d bit_index
 
+/-! ### mpz_cdiv_q_2exp, mpz_fdiv_q_2exp — mpz/cfdiv_q_2exp.c -/
+
+/-- cfdiv_q_2exp.c:74-89: `if (round != 0) { if (wsize != 0) { cy = mpn_add_1 (wp, wp, wsize, 1); wp[wsize] = cy;
+    wsize += cy; } else { wp[0] = 1; wsize = 1; } }` -/
+def roundTail (s : St) (wp : Ptr) (wsize : Nat) (round : Bool) : St × Nat :=
+  if round then                                                               -- :74
+    if wsize != 0 then                                                        -- :76
+      let (s, cy) := mpn_add_1 s wp wp wsize 1                                -- :79
+      let s := s.store wp wsize cy                                            -- :80
+      (s, wsize + cy)                                                         -- :81
+    else (s.store wp 0 1, 1)                                                  -- :86-87
+  else (s, wsize)
+
+/-- cfdiv_q_2exp.c:32-91; `dir` = 1 (ceil) or -1 (floor); `plus` = 1 in the C ("+1 limb to allow for mpn_add_1 below") -/
+def cfdiv_q_2exp (plus : Nat) (s : St) (w u : Nat) (cnt : Nat) (dir : Int) : St :=
+  let usize := s.SIZ u                                                        -- :39
+  let abs_usize := usize.natAbs                                               -- :40
+  let limb_cnt := cnt / 64                                                    -- :41
+  if abs_usize ≤ limb_cnt then                                                -- :42-43 wsize <= 0
+    let s := s.store (s.PTR w) 0 1                                            -- :46 PTR(w)[0] = 1 (no realloc: alloc >= 1)
+    s.setSize w (if usize == 0 || (decide (usize < 0) != decide (dir < 0)) then 0 else dir)   -- :47
+  else
+    let wsize := abs_usize - limb_cnt
+    let s := MPZ_REALLOC s w (wsize + plus)                                   -- :52
+    let up := s.PTR u                                                         -- :56
+    let rmask := decide (usize < 0) == decide (dir < 0)                       -- :58 (usize ^ dir) >= 0
+    let low := s.rd up limb_cnt                                               -- :59-61 reads a prefix of up[0, limb_cnt)
+    let s := if rmask then s.chk (s.rdOk up limb_cnt) else s
+    let round0 := rmask && low.any (· != 0)
+    let wp := s.PTR w                                                         -- :63
+    let c := cnt % 64                                                         -- :64
+    if c != 0 then                                                            -- :65
+      let (s, out) := mpn_rshift s wp (up.add limb_cnt) wsize c               -- :67
+      let (top, s) := s.load wp (wsize - 1)                                   -- :68
+      let (s, wsize) := roundTail s wp (wsize - (if top == 0 then 1 else 0)) (round0 || (rmask && out != 0))
+      s.setSize w (sgn (usize < 0) wsize)                                     -- :90
+    else
+      let s := MPN_COPY s wp (up.add limb_cnt) wsize                          -- :71
+      let (s, wsize) := roundTail s wp wsize round0
+      s.setSize w (sgn (usize < 0) wsize)                                     -- :90
+
+def mpz_cdiv_q_2exp (s : St) (w u : Nat) (cnt : Nat) : St := cfdiv_q_2exp 1 s w u cnt 1
+def mpz_fdiv_q_2exp (s : St) (w u : Nat) (cnt : Nat) : St := cfdiv_q_2exp 1 s w u cnt (-1)
+
 end Mpir.AllocSafe
